@@ -71,6 +71,9 @@ def pipeline(prop, tier, fam):
                     c.pop("_keep", None)
             if m.get("setup"):
                 cases.insert(0, m["setup"](world))
+                # kept for --replay: a single case of this family needs the same setup first
+                with open(os.path.join(wd, "setup.%s.json" % m.get("family", fam["family"])), "w") as sf:
+                    json.dump(cases[0], sf)
             cpath = os.path.join(wd, m["name"] + ".cases.ndjson")
             vlib.write_ndjson(cpath, cases)
             tpath = os.path.join(wd, m["name"] + ".trace.ndjson")
@@ -152,15 +155,26 @@ def replay(prop, path, fam):
     """re-run the single abstract case of a replay file through the harness and the trace spec"""
     wd = vlib.workdir(prop)
     vlib.build_harness(fam.get("bins", ("conform",)))
+    vlib.TRACE_ENV.clear()
+    vlib.TRACE_ENV.update(fam.get("trace_env", {}))
+    vlib.TRACE_ENV["TIER"] = "thorough"
     with open(path) as f:
         rep = json.load(f)
     ev = rep["event"]
     case = fam.get("case_of_event", lambda e: e.get("case", e))(ev)
     cpath = os.path.join(wd, "replay.cases.ndjson")
     tpath = os.path.join(wd, "replay.trace.ndjson")
-    vlib.write_ndjson(cpath, [case])
     # a property may be served by several harness families: the event says which one recorded it
     famname = fam.get("family_of_event", lambda e: fam["family"])(ev)
+    cases = [case]
+    spath = os.path.join(wd, "setup.%s.json" % famname)
+    needs_setup = any(m.get("setup") and m.get("family", fam["family"]) == famname for m in fam.get("models", []))
+    if needs_setup:
+        if not os.path.exists(spath):
+            raise ToolError("replay of a %s case needs the family's setup (%s): run ./check %s --tier quick once first" % (famname, spath, prop))
+        with open(spath) as sf:
+            cases.insert(0, json.load(sf))
+    vlib.write_ndjson(cpath, cases)
     tmod = fam.get("trace_module_of_event", lambda e: fam["trace_module"])(ev)
     vlib.conform("replay", famname, cpath, tpath, binary=fam.get("binary"))
     n, bad, _ = vlib.validate_trace(tmod, tpath, wd)
